@@ -86,6 +86,7 @@ fn main() {
         "c10" => c10_parent(&args),
         "c10-worker" => c10_worker(&args),
         "c10-replay" => c10_replay(&args),
+        "c10-try" => c10_try(&args),
         "c18" => c18::main(&args),
         "c18-replay" => c18::replay(&args),
         "c20" => c20::main(&args),
@@ -116,10 +117,23 @@ fn c10_worker(args: &Args) {
             break;
         }
         let rep = c10::run_scenario(seed, i, &tasks, &tier, &mut scratch);
-        let mut o = stdout.lock();
-        writeln!(o, "{}", serde_json::to_string(&rep).unwrap()).unwrap();
-        o.flush().unwrap();
+        let tainted = rep.tainted;
+        {
+            let mut o = stdout.lock();
+            writeln!(o, "{}", serde_json::to_string(&rep).unwrap()).unwrap();
+            o.flush().unwrap();
+        }
         i += stride;
+        if tainted && i < count {
+            // continue in a fresh process image (same stdout pipe): nothing of the aborted execution survives
+            drop(scratch);
+            let remaining = if deadline > 0 { deadline.saturating_sub(t0.elapsed().as_secs()).max(1) } else { 0 };
+            use std::os::unix::process::CommandExt;
+            let err = Command::new(std::env::current_exe().unwrap())
+                .args(["c10-worker", "--seed", &seed.to_string(), "--tier", if tier.thorough { "thorough" } else { "quick" }, "--start", &i.to_string(), "--stride", &stride.to_string(), "--count", &count.to_string(), "--deadline-s", &remaining.to_string()])
+                .exec();
+            harness_error(&format!("re-exec of the worker failed: {err}"));
+        }
     }
 }
 
@@ -492,6 +506,15 @@ impl Agg {
             ]
         })
     }
+}
+
+fn c10_try(args: &Args) {
+    let path = args.pos.first().cloned().unwrap_or_else(|| harness_error("usage: vcheck c10-try FILE"));
+    let r: Replay = serde_json::from_str(&std::fs::read_to_string(&path).unwrap_or_else(|e| harness_error(&format!("{path}: {e}")))).unwrap_or_else(|e| harness_error(&format!("{path}: {e}")));
+    let mut scratch = Scratch::new("try");
+    let (violations, digest, run) = c10::replay(&r, &mut scratch, false);
+    let out = c10::TryOut { violations, digest, decisions: run.result.trace.decisions.clone() };
+    println!("{}", serde_json::to_string(&out).unwrap());
 }
 
 fn c10_replay(args: &Args) {
